@@ -506,8 +506,17 @@ def simulate(sc):
                 elif op == "browser_at_expiry":
                     import zeroconf._dns as dnsm
                     now_ms = float(sim.loop.ms)
+                    def reannounceable(r):
+                        # the canary re-announces the pointer with `announce_packet(<instance label>, <type>)`: only a pointer whose alias IS
+                        # `<one non-empty label of at most 63 bytes>.<its owner name>` can be announced again that way.  Hostile datagrams
+                        # cache others (e.g. `_b._tcp.local. PTR inst.hb.local.`, a compression pointer into another record: thorough run,
+                        # seed 0 idx 1087 -- the canary then "re-announced" an instance with an EMPTY label, a different record, and alarmed)
+                        if not r.alias.lower().endswith("." + r.name.lower()):
+                            return False
+                        inst = r.alias[:-len(r.name) - 1]
+                        return bool(inst) and "." not in inst and len(inst.encode("utf-8", "replace")) <= 63
                     ptrs = [r for t_ in step["types"] for r in zc.cache.async_entries_with_name(t_)
-                            if isinstance(r, dnsm.DNSPointer) and r.created + r.ttl * 1000 > now_ms + 1]
+                            if isinstance(r, dnsm.DNSPointer) and r.created + r.ttl * 1000 > now_ms + 1 and reannounceable(r)]
                     if ptrs:
                         r = min(ptrs, key=lambda x: x.created + x.ttl * 1000)
                         await sim.sleep_until(int(r.created + r.ttl * 1000) - vsim.T0 + step.get("off", 0))
